@@ -1022,6 +1022,15 @@ impl<'t> Gen<'t> {
       let vars = self.vars_of(&rty, cx);
       if !vars.is_empty() {
         let r = Expr::new(rty, EK::Var(vars[self.t.choose(vars.len())].clone()));
+        // the same call through a method reference taken as a value: `{ let f: (P) -> R = r.m; f(args) }`
+        if fs.tparams.is_empty() && fs.class_tparams.is_empty() && fs.fuel.is_none() && self.t.bool(1, 5) {
+          self.feat("method-reference");
+          let fty = Ty::Fn(fs.params.clone(), Box::new(ret.clone()));
+          let fv = self.fresh("g");
+          let mref = Expr::new(fty.clone(), EK::MethodRef { recv: Box::new(r), method: fs.name.clone() });
+          let call = Expr::new(ret.clone(), EK::CallValue { callee: Box::new(Expr::new(fty.clone(), EK::Var(fv.clone()))), args });
+          return Some(Expr::new(ret, EK::Block { stmts: vec![Stmt::Let { pat: Pat::Var(fv, fty.clone()), annot: Some(fty), init: mref }], last: Some(Box::new(call)) }));
+        }
         return Some(Expr::new(ret, EK::MethodCall { recv: Box::new(r), method: fs.name.clone(), targs, args }));
       }
       let v = self.fresh("r");
